@@ -380,6 +380,35 @@ func execScript(a []string) string {
 			}
 			ss, errs = append(ss, s), append(errs, err)
 		}
+		// every output of ONE request is built on its own: the same address twice with two frozen periods (and the
+		// other order) must give, output by output, the scripts of the single builds, and fail iff a single build fails
+		// (seed C16-5: the builder memoised the script per address inside one call)
+		if frozen < math.MaxUint32 {
+			one, _ := massutil.NewAmountFromUint(1)
+			for _, order := range [][2]uint64{{frozen, frozen + 1}, {frozen + 1, frozen}} {
+				var want [][]byte
+				fail := false
+				for _, f := range order {
+					ws, e := txscript.PayToStakingAddrScript(addr, f)
+					if e != nil {
+						fail = true
+					}
+					want = append(want, ws)
+				}
+				mtx := wire.NewMsgTx()
+				e := masswallet.VerifConstructStakingTxOut([]*masswallet.StakingTxOut{
+					{Address: addr.EncodeAddress(), FrozenPeriod: uint32(order[0]), Amount: one},
+					{Address: addr.EncodeAddress(), FrozenPeriod: uint32(order[1]), Amount: one}}, mtx)
+				if (e != nil) != fail {
+					return "mismatch batch-error-differs"
+				}
+				if e == nil {
+					if len(mtx.TxOut) != 2 || !bytes.Equal(mtx.TxOut[0].PkScript, want[0]) || !bytes.Equal(mtx.TxOut[1].PkScript, want[1]) {
+						return "mismatch batch-output-differs"
+					}
+				}
+			}
+		}
 		// a witness-v0 address must be refused by the staking builder
 		wa, _ := massutil.NewAddressWitnessScriptHash(h, config.ChainParams)
 		if _, e := txscript.PayToStakingAddrScript(wa, frozen); e == nil {
